@@ -81,9 +81,12 @@ class Policy:
         p = target['path']
         if p in self.stop or callee['path'] in self.stop:
             return False
-        if (callee.get('trait'), callee['name']) in self.stop_trait_methods:
+        # the blanket impls for references (`impl Signal for &mut S`) only forward to the same method of the pointee, which
+        # is then kept as the event: seeing through them keeps `(&mut signal).take(n)`-style borrows transparent
+        fwd = (target.get('impl') or {}).get('self_ty', '').startswith('&')
+        if (callee.get('trait'), callee['name']) in self.stop_trait_methods and not fwd:
             return False
-        if (callee.get('impl_trait'), callee['name']) in self.stop_trait_methods:
+        if (callee.get('impl_trait'), callee['name']) in self.stop_trait_methods and not fwd:
             return False
         if p.startswith(self.no_inline_prefixes) and self.no_inline_prefixes:
             return False
